@@ -194,7 +194,8 @@ fn run3<F: Function + RenderHints + MathFunction + Clone>(cx: &mut Cx, backend: 
 fn run_mesh<F: Function + RenderHints + MathFunction + Clone>(cx: &mut Cx, backend: &str, b: &Built, quick: bool, k: usize, rng: &mut Rng) {
     let shape = Shape::<F>::new(&b.ctx, b.root).unwrap();
     let vars = ShapeVars::<f32>::new();
-    let depth = [2u8, 3, 4, 5][k % 4];
+    // depth 0 and 1: fewer cells than a pool wants tasks (at depth 0 the root itself is the only task)
+    let depth = [2u8, 3, 0, 4, 5, 1][k % 6];
     let mut w2m = Matrix4::identity();
     if k % 3 == 1 {
         w2m[(0, 0)] = 1.25;
